@@ -121,14 +121,18 @@ def validated_run(model, ch, cls_qualname=BASE):
             interp_.raise_("cutplace.errors.FieldValueError", Opaque("str", True, ["<rule>"]))
         return native
 
+    from ..absint import ClassRef
     from ..world import World
 
     world = World(model, interp, ch)
-    data_format = world.data_format(format_name, _allowed_characters=allowed_range)
-    field = Obj(model.cls(cls_qualname), {
-        "_field_name": "f0", "_is_allowed_to_be_empty": allowed_empty, "_length": length, "_rule": "",
-        "_data_format": data_format, "_empty_value": empty_value, "_example": None, "validated_value": hook,
-    }, label="field")
+    # "D,Allowed characters,..." may stand before or after the field rows of a CID: the guard must use the data
+    # format's range as it is when the cell is validated
+    declared = ch.choose("allowed characters declared", ["before the field", "after the field"]) if has_allowed_characters == "range" else "before the field"
+    data_format = world.data_format(format_name, _allowed_characters=allowed_range if declared == "before the field" else None)
+    interp.stubs["cutplace.ranges.Range"] = stub(lambda i, a, k: length)
+    field = interp.instantiate(ClassRef(model.cls(cls_qualname)), ["f0", allowed_empty, "LENGTH", "", data_format], {"empty_value": empty_value})
+    data_format.attrs["_allowed_characters"] = allowed_range
+    field.attrs["validated_value"] = hook
 
     def ord_hook(interp_, args, kwargs):
         return args[0] if isinstance(args[0], Char) else (_ for _ in ()).throw(Undecided("ord(%r)" % (args[0],)))
@@ -142,7 +146,7 @@ def validated_run(model, ch, cls_qualname=BASE):
         outcome = ("raise", raised.value)
     return {"interp": interp, "format": format_name, "allowed_empty": allowed_empty, "shape": shape, "kind": kind, "chars": chars,
             "value": value, "outcome": outcome, "width": width, "native": native, "empty_value": empty_value,
-            "has_allowed_characters": has_allowed_characters, "length_verdict": length_verdict}
+            "has_allowed_characters": has_allowed_characters, "length_verdict": length_verdict, "declared": declared}
 
 
 def validated_oracle(run):
@@ -233,8 +237,9 @@ def validated_key(run):
     facts = ", ".join("%s%s%s" % (a[1], rel, b[1]) for a, rel, b in interp.order.facts)
     marks = "".join("-" if not char.allowed else ("_" if char.blank else "c") for char in run["chars"])
     checks = ",".join("%s:%s" % (event[0], event[-1]) for event in interp.events if event[0] in ("length-check", "validated_value"))
-    return "format=%s empty-allowed=%s cell=%s[%s] characters=%s order[%s] %s" % (
-        run["format"], run["allowed_empty"], run["shape"], marks, run["has_allowed_characters"], facts, checks)
+    return "format=%s empty-allowed=%s cell=%s[%s] characters=%s%s order[%s] %s" % (
+        run["format"], run["allowed_empty"], run["shape"], marks, run["has_allowed_characters"],
+        "(declared after the field)" if run["declared"] != "before the field" else "", facts, checks)
 
 
 def validated_table(ctx, rule):
